@@ -512,7 +512,10 @@ static void rec_finish(int kind, int idx)
     (void)cmb_timeseries_summarize(ts, &ws);
     const double mean = cmb_wtdsummary_mean(&ws);
     const double exact = W.rec[kind][idx].integral / T;
-    const double tol = 1e-9 * (fabs(exact) > 1.0 ? fabs(exact) : 1.0);
+    /* rounding: relative to the mean, plus what double arithmetic on the largest recorded value can lose (a level near 2^64 held for 1e-9) */
+    double xmax = 0.0;
+    for (uint64_t i = 0; i < n; i++) if (fabs(ts->ds.xa[i]) > xmax) xmax = fabs(ts->ds.xa[i]);
+    const double tol = 1e-9 * (fabs(exact) > 1.0 ? fabs(exact) : 1.0) + 1e-12 * xmax;
     if (!(fabs(mean - exact) <= tol))
         viol("C14", "time-average", "kind %d object %d: time-weighted mean %.12g differs from the exact average %.12g over [%g,%g]", kind, idx, mean, exact,
              W.rec[kind][idx].t0, W.rec[kind][idx].t1);
